@@ -336,21 +336,15 @@ theorem trace_same_answer_total {d : Design} (hwf : WF d) (hnn : WFNet d) (hs : 
 
 /-! ### every selection from every kind of start -/
 
-/-- `get_hcables(x, sel)` is the image of `get_hwires(x, sel)` under "cable of", for every selection -/
+/-- `get_hcables(x, sel)` is the image of `get_hwires(x, sel)` under "cable of", for every selection
+    (for a cable start with INSIDE the answer is the cable itself: `queries_on_hcable` in C11) -/
 theorem hcables_image {d : Design} (hwf : WF d) (x : HRef) (rec : Bool) (sel : Sel)
-    (hx : IsHWire d x ∨ IsHPin d x ∨ IsHCable d x ∨ IsHPort d x) (c : HRef) :
+    (hx : IsHWire d x ∨ IsHPin d x ∨ IsHPort d x ∨ (IsHCable d x ∧ sel ≠ .inside)) (c : HRef) :
     c ∈ (getHCables d (.href x) rec sel).1 ↔ ∃ w ∈ (getHWires d (.href x) rec sel).1, c = w.tail := by
-  have hk : ∀ i, resolve d x ≠ some (.inst i) := by
-    intro i
-    rcases hx with ⟨C, w', ho⟩ | ⟨P, q, ho⟩ | ⟨C, ho⟩ | ⟨P, ho⟩ <;> rw [resolve_complete hwf ho] <;> simp
   have : hcablesOfHRef d rec sel x = ((hwiresOfHRef d rec sel x).1.map List.tail, (hwiresOfHRef d rec sel x).2) := by
     unfold hcablesOfHRef
-    cases h : resolve d x with
-    | none => rfl
-    | some e =>
-      cases e with
-      | inst i => exact absurd h (hk i)
-      | _ => rfl
+    rcases hx with ⟨C, w', ho⟩ | ⟨P, q, ho⟩ | ⟨P, ho⟩ | ⟨⟨C, ho⟩, hne⟩ <;> rw [resolve_complete hwf ho]
+    simp [hne]
   simp only [getHCables, getHWires, hrefsOfItem, List.map_cons, List.map_nil, List.flatMap_cons, List.flatMap_nil,
     List.append_nil, this, mem_dedup, List.mem_map]
   constructor
